@@ -65,10 +65,82 @@ def run(ctx):
         _gate(ctx, cfg, prog, mod)
         _freshsrc(ctx, cfg, prog, mod)
         _mono(ctx, cfg, prog, mod)
+        _slotbump(ctx, cfg, prog, mod)
     if ctx.tier == 'thorough':
         import c05
         c05._witness(ctx)
     return ctx.finish(EXPLANATION)
+
+
+# ------------------------------------------------------------------------------------------ SLOTBUMP
+SWAP = 'core::cell::Cell::swap_vertex_slots'
+BUMP = 'core::triangulation_data_structure::Tds::bump_generation'
+
+
+# bodies that swap slots of stored cells and leave the bump to their caller, with the reason
+SLOT_NOBUMP = {
+    'core::triangulation::Triangulation::canonicalize_positive_orientation_for_cells':
+        'called on cells created earlier in the same insertion / removal, whose insert_cell_with_mapping already advanced the '
+        'generation: no hull can have seen them',
+}
+
+
+def _bumps(prog, name, memo, depth=2):
+    if name == BUMP:
+        return True
+    if name in memo:
+        return memo[name]
+    memo[name] = False
+    b = prog.bodies.get(name)
+    r = False
+    if b is not None and depth > 0:
+        r = any(_bumps(prog, t.resolved or t.callee or '', memo, depth - 1) for _, t in b.calls())
+    memo[name] = r
+    return r
+
+
+def _slotbump(ctx, cfg, prog, mod):
+    """SLOTBUMP: a hull facet is stored as (cell key, facet index), so re-ordering the vertex slots of a stored cell
+    changes what a hull handle means although no key set changes (PAIR does not see it).  From every call of
+    `Cell::swap_vertex_slots` in library code every *success* return is behind a generation bump; a flag assigned the
+    literal `true` next to the swap and tested before the bump is followed (bool constant propagation), a flag
+    re-computed on every iteration is not."""
+    import gate
+    ctx.rule('SLOTBUMP', 'after a stored cell\'s vertex slots are swapped every success return is behind a generation bump')
+    memo = {}
+    n = 0
+    for q, b in sorted(prog.bodies.items()):
+        if '::tests::' in q or not b.file.startswith('src/') or q == SWAP:
+            continue
+        swaps = [(bb, t) for bb, t in b.calls() if (t.resolved or t.callee) == SWAP]
+        if not swaps:
+            continue
+        bump_blocks = {bb for bb, t in b.calls() if _bumps(prog, t.resolved or t.callee or '', memo)}
+        exits = {e['bb'] for e in gate.success_exit_blocks(b)}
+        for bb, t in swaps:
+            # a swap on a cell that is not yet stored (a local value being built) is not a change of the Tds
+            al = mod.aliases(q)
+            tt = al.operand_target(t.args[0]) if t.args else None
+            if tt is not None and not (1 <= tt[0] <= b.nargs) and b.kind != 'closure':
+                src_calls = [(l[1].resolved or l[1].callee or '') for l in valueflow.sources(b, al, t.args[0].place.local) if l[0] == 'call']
+                if not any('get_mut' in c or 'cells_mut' in c or 'get_cell_by_key_mut' in c or 'IterMut' in c or 'iter_mut' in c or 'values_mut' in c for c in src_calls):
+                    continue
+            n += 1
+            if not bump_blocks:
+                why = SLOT_NOBUMP.get(b.root or q)
+                ctx.ob('SLOTBUMP', '%s' % (b.root or q), cfg, False,
+                       'vertex slots of stored cells are swapped at line %d and this body never bumps the generation' % t.line,
+                       assumed=why, site='%s:%d' % (b.file, t.line))
+                continue
+            starts = [t.target] if t.target is not None else b.succs(bb)
+            reach = flow.reach_edges_cp(b, starts, avoid_blocks=bump_blocks)
+            esc = sorted(exits & reach)
+            ctx.ob('SLOTBUMP', '%s' % (b.root or q), cfg, not esc,
+                   'every success return after the slot swap at line %d passes a generation bump' % t.line if not esc else
+                   'a success return (block %s) is reachable from the slot swap at line %d without a generation bump: hull handles '
+                   '(cell key, facet index) change their meaning while the hull still counts as fresh' % (esc[:3], t.line),
+                   site='%s:%d' % (b.file, t.line))
+    ctx.floor('vertex-slot swaps on stored cells', 3, n, cfg)
 
 
 # ------------------------------------------------------------------------------------------ PAIR
